@@ -40,4 +40,19 @@ def templates(tier="quick"):
         log = "# ninja log v%d\n1\t2\t1700000000000000000\ta\tabcdef\n3\t4\t1700000000000000000\tb\t123456\n" % ver
         T.append(scenario("c08/unsupported_v%d" % ver, "c08", [v0, v1], files={".ninja_log": log}, ops=ops, init=[], depth=2,
                           tags=["buildlog", "version"]))
+    # an implicit output supplied through dyndep information (no node for it when the log is opened)
+    from family_cycles import dyndep_text
+    dd = dyndep_text([("out", ["out.x"], [], False)])
+    w0 = Variant("v0", [Stmt("dd", ex=["dd.in"], copy=True),
+                        Stmt("out", ex=["in"], oo=["dd"], dyndep="dd", extra_outs=["out.x"]), Stmt("top", ex=["out"])])
+    ops2 = [
+        {"op": "edit", "path": "in", "label": "edit in"},
+        {"op": "touch", "path": "dd.in", "label": "touch dd.in"},
+        {"op": "rm", "path": "out.x", "label": "rm out.x"},
+        {"op": "duplog", "path": "top", "content": "400", "label": "400 more records of top in the log (long history)"},
+    ]
+    b2 = len(ops2)
+    ops2 += [ninja_op(j=2), _tool("recompact"), _tool("restat")]
+    T.append(scenario("c08/dyndep_output/built", "c08", [w0], files={"dd.in": dd}, ops=ops2, init=[b2], depth=d,
+                      tags=["buildlog", "dyndep"]))
     return T
